@@ -15,9 +15,12 @@ Record nquirks := {
   q_ts_elseif_nests    : bool;   (* every `else if` adds a level (if_statement under else_clause) *)
   q_rs_elseif_nests    : bool;
   q_rs_table_from_code : bool;   (* NESTING_NODE_TYPES as in the source: async_block missing *)
+  q_ts_fn_types_from_code : bool; (* function node types of extract_function_info as in the source: it tests
+                                    "function" (no such node in the grammar) where the parser yields
+                                    function_expression, and has no case for generator functions *)
 }.
-Definition ideal : nquirks := Build_nquirks false false false false false.
-Definition actual_all : nquirks := Build_nquirks true true true true true.
+Definition ideal : nquirks := Build_nquirks false false false false false false.
+Definition actual_all : nquirks := Build_nquirks true true true true true true.
 
 (* ------------------------------------------------------------------ Python *)
 Inductive pynode :=
@@ -78,8 +81,33 @@ Fixpoint py_visit (ctl : list string) (n : pynode) (d : nat) (is_elif : bool) : 
     else maxl (map (fun c => py_visit ctl c d false) cs)
   end.
 
+(* the same visitor with the literals of the source as parameters: the increment of _visit_if_node, the increment
+   of _visit_control_structure and the length tested by _is_elif_chain (Gen.py_if_inc / py_ctl_inc / py_elif_len,
+   produced by the translator's control-flow templates, which fail closed when the statements of the visitor
+   differ from the transcription below).  `tracker.record` is folded into Nat.max as above. *)
+Fixpoint py_visit_g (iinc cinc elen : nat) (ctl : list string) (n : pynode) (d : nat) (is_elif : bool) : nat :=
+  match n with
+  | PIf body orelse =>
+    let d' := if is_elif then d else d + iinc in
+    Nat.max (if is_elif then 0 else d')
+      (Nat.max (maxl (map (fun c => py_visit_g iinc cinc elen ctl c d' false) body))
+               (match orelse with
+                | (PIf b o as e) :: _ =>
+                  if List.length orelse =? elen                       (* _is_elif_chain *)
+                  then py_visit_g iinc cinc elen ctl e d' true
+                  else maxl (map (fun c => py_visit_g iinc cinc elen ctl c d' false) orelse)
+                | _ => maxl (map (fun c => py_visit_g iinc cinc elen ctl c d' false) orelse)
+                end))
+  | PNode cls cs =>
+    if smem cls ctl
+    then Nat.max (d + cinc) (maxl (map (fun c => py_visit_g iinc cinc elen ctl c (d + cinc) false) cs))
+    else maxl (map (fun c => py_visit_g iinc cinc elen ctl c d false) cs)
+  end.
+
+Definition py_visit_src : list string -> pynode -> nat -> bool -> nat := py_visit_g py_if_inc py_ctl_inc py_elif_len.
+
 Definition py_calc (q : nquirks) (body : list tree) : nat :=
-  maxl (map (fun s => py_visit (py_controls q) (to_py s) (py_start q) false) body).
+  maxl (map (fun s => py_visit_src (py_controls q) (to_py s) (py_start q) false) body).
 
 Definition py_fn_cls (fk : fkind) : string :=
   match fk with FAsyncDef => "AsyncFunctionDef" | _ => "FunctionDef" end.
@@ -192,8 +220,14 @@ Definition rs_types (q : nquirks) : list string :=
 Definition rs_calc (q : nquirks) (f : fninfo) : nat :=
   ts_calc_node (rs_types q) (negb (q_rs_elseif_nests q)) rs_names rs_body_type rs_start_depth (fn_node rs_names f).
 
+(* the function node types judged: as found in the source, or completed by the two function-like node types
+   with a statement block that the source table lacks (patched table: once the source lists them both agree) *)
+Definition ts_fn_types (q : nquirks) : list string :=
+  if q_ts_fn_types_from_code q then ts_function_types
+  else ts_function_types ++ filter (fun t => negb (smem t ts_function_types)) ["function_expression"; "generator_function_declaration"].
+
 Definition ts_report (q : nquirks) (limit : nat) (file : list tree) : list nrep :=
-  flat_map (fun f => report_fn (smem (ts_ftype (fn_kind f)) ts_function_types) ts_skip_cmp (ts_calc q f) limit f)
+  flat_map (fun f => report_fn (smem (ts_ftype (fn_kind f)) (ts_fn_types q)) ts_skip_cmp (ts_calc q f) limit f)
            (file_functions file).
 
 Definition rs_report (q : nquirks) (limit : nat) (file : list tree) : list nrep :=
@@ -206,7 +240,7 @@ Inductive lang := Py | Ts | Rs.
 Definition fkind_ok (l : lang) (fk : fkind) : bool :=
   match l, fk with
   | Py, (FDef | FAsyncDef | FMethod) => true
-  | Ts, (FDef | FAsyncDef | FArrow | FMethod | FArrowExpr) => true
+  | Ts, (FDef | FAsyncDef | FArrow | FMethod | FArrowExpr | FFnExpr | FGen) => true
   | Rs, (FDef | FAsyncDef | FMethod) => true
   | _, _ => false
   end.
